@@ -15,7 +15,7 @@ PROPERTY = "C14"
 
 META = {
     "bounds": {
-        "quick": "24 structural error statements x 3 insertion positions in a 3-statement base program x 6 entry points; the same statements inside 9 wrappers expanded at code-generation time (taken .if / else, macro body, code argument, loop body, nested blocks, named scope) x 2 entry points; 6 value-dependent statement kinds with a symbolic 24-bit value x 6 entry points; valid programs x 6 entry points",
+        "quick": "26 structural error statements x 3 insertion positions in a 3-statement base program and 4 positions (one per block) in a program of three `*=` blocks and a relocated part x 6 entry points; the same statements inside 9 wrappers expanded at code-generation time (taken .if / else, macro body, code argument, loop body, nested blocks, named scope) x 2 entry points; 6 value-dependent statement kinds with a symbolic 24-bit value x 6 entry points; valid programs x 6 entry points",
         "thorough": "same with 4 insertion positions and two base programs",
     },
     "outside": ["argparse itself and the OS process boundary (exercised concretely by --replay through `python -m a816.cli`)", "error classes not listed in the property"],
@@ -26,7 +26,9 @@ META = {
 
 OPTS = {"quick": {"deadline_s": 300}, "thorough": {"deadline_s": 900}}
 
-BASES = [["*=0x8000", "start:", "lda.w #0x1234", ".dw start"], ["*=0x8000", ".macro m(a) {\n.db a\n}", "m(1)", "{\nnop\n}"]]
+BASES = [["*=0x8000", "start:", "lda.w #0x1234", ".dw start"], ["*=0x8000", ".macro m(a) {\n.db a\n}", "m(1)", "{\nnop\n}"],
+         # several `*=` blocks (a fault in any block must be reported, whatever follows it)
+         ["*=0x8000", "start:", ".dw start", "*=0x018000", "second:", "lda.w #0x1234", "@=0x7e2000", "ram:", ".dl ram", "*=0x028000", ".dw second", ".dl start"]]
 
 STRUCTURAL = {
     "lex-bad-suffix": "lda.q 0x10",
@@ -78,10 +80,12 @@ ENTRIES = ["string", "with_emitter", "assemble", "as_patch", "cli-ips", "cli-sfc
 
 def jobs(tier, seed):
     out = []
-    bases = [0] if tier == "quick" else [0, 1]
+    bases = [0, 2] if tier == "quick" else [0, 1, 2]
     for bi in bases:
         npos = len(BASES[bi]) + 1
         positions = [1, 2, npos - 1] if tier == "quick" else list(range(1, npos))
+        if bi == 2:
+            positions = [2, 5, 8, npos - 1] if tier == "quick" else list(range(1, npos))
         for ek in STRUCTURAL:
             for pos in positions:
                 for en in ENTRIES:
